@@ -36,21 +36,22 @@ def main():
         print("no change in worktree")
         return 2
     # (a) with the change
-    sh("/venv/bin/python /tmp/seedtools/build_inplace.py " + wt)
+    sh("/venv/bin/python " + os.path.join(VERIF, "harness", "build_inplace.py") + "  " + wt)
     rc, o = sh("/venv/bin/python -m pytest -q -p no:cacheprovider --timeout=900 2>&1 | tail -3", wt, env)
     meta["suite_with_change"] = o.strip().splitlines()[-1] if o.strip() else ""
     rc_with, o_with = sh(f"{runner} seed_out/{demo}", wt, env)
     meta["demo_with_change"] = dict(exit=rc_with, tail=o_with[-400:])
     # (b) without
-    with open("/tmp/seedtools/_tmp.diff", "w") as f:  # noqa
+    tmpdiff = os.path.join(out, "_tmp.diff")
+    with open(tmpdiff, "w") as f:
         f.write(diff)
     # NOT `git stash`: the stash is shared between all worktrees of a repository
-    sh("git apply -R /tmp/seedtools/_tmp.diff", wt)
-    sh("/venv/bin/python /tmp/seedtools/build_inplace.py " + wt)
+    sh("git apply -R " + tmpdiff, wt)
+    sh("/venv/bin/python " + os.path.join(VERIF, "harness", "build_inplace.py") + "  " + wt)
     rc_without, o_without = sh(f"{runner} seed_out/{demo}", wt, env)
     meta["demo_without_change"] = dict(exit=rc_without, tail=o_without[-200:])
-    sh("git apply /tmp/seedtools/_tmp.diff", wt)
-    sh("/venv/bin/python /tmp/seedtools/build_inplace.py " + wt)
+    sh("git apply " + tmpdiff, wt)
+    sh("/venv/bin/python " + os.path.join(VERIF, "harness", "build_inplace.py") + "  " + wt)
     ok = ("696 passed" in meta["suite_with_change"]) and rc_with != 0 and rc_without == 0
     meta["confirmed"] = ok
     print("suite:", meta["suite_with_change"], "| demo with:", rc_with, "| demo without:", rc_without, "| confirmed:", ok)
